@@ -1583,4 +1583,531 @@ theorem sg_fences : ∀ (fuel : Nat) {h h' : Heap} {p oe n n' : Nat}, fences fue
       simp only [sgFenceList, List.mem_cons, List.not_mem_nil, or_false]
       exact Or.comm
 
+/-! ## 9. `add_segment`: the invariant of the final state from a description of its table -/
+
+theorem sg_isRecord_of_mem {segs : List Seg} {g : Seg} {e : Ent} (hg : g ∈ segs) (h : g.recAt = e.addr + 16) :
+    isRecord segs e = true := sg_isRecord_iff.2 ⟨g, hg, h⟩
+
+/-- **`add_segment`, the final state**: the new head segment `[X, F]`, the old head segment whose window
+`[top, foot]` became `W = m' :: ms'` (remainder of the old `top`, record chunk at `csp`, fenceposts), its record
+address set, everything else unchanged.  The three bin conjuncts are hypotheses (they depend on whether the
+remainder was binned). -/
+theorem sg_addseg_core {s s' : St} (hi : SInv s)
+    {g0 : Seg} {rest : List Seg} {pre post : List Ent} {x f : Ent}
+    (hsegs : s.segs = g0 :: rest) (hes : s.h.ents = pre ++ [x, f] ++ post)
+    (hxa : x.addr = s.h.top) (hxf : isFree x = true) (hxs : x.size = s.h.topsize)
+    (hfa : f.addr = s.h.top + s.h.topsize) (hfc : f.cin = false) (hfp : f.pin = false) (hfs : f.size = 80)
+    (hgb : g0.base ≤ s.h.top) (hgt : s.h.top + s.h.topsize + 80 = g0.base + g0.size)
+    {tbase tsize : Nat} (hfr : ∀ g ∈ s.segs, tbase + tsize ≤ g.base ∨ g.base + g.size ≤ tbase)
+    (hpage : tbase % 4096 = 0) (hpos : 0 < tbase) (hlim : tbase + tsize ≤ 2 ^ 64) (hts : tsize % 4096 = 0)
+    (hts2 : 96 ≤ tsize)
+    {X F : Ent} (X1 : X.addr = tbase) (X2 : X.size = tsize - 80) (X3 : X.cin = false) (X4 : X.pin = true)
+    (F1 : F.addr = tbase + (tsize - 80)) (F2 : F.size = 80) (F3 : F.cin = false) (F4 : F.pin = false)
+    {csp : Nat} {m' : Ent} {ms' : List Ent}
+    (wc : contig (m' :: ms') s.h.top = true) (wend : endE m' ms' + 8 = g0.base + g0.size)
+    (wlast : (lastE m' ms').size = 8) (wshape : shapeOk (m' :: ms') = true) (whead : HeadEq x m')
+    (wtags : tagsFrom tbase m' ms' = true)
+    (wclass : ∀ e ∈ m' :: ms', e.size = 8 ∨ (e.addr = csp ∧ e.cin = true) ∨
+      (e.cin = false ∧ e.addr + e.size + 80 ≤ g0.base + g0.size))
+    (wfence : ∀ a ∈ m' :: ms', ∀ b ∈ m' :: ms', b.size = 8 → b.addr = a.addr + a.size → a.size = 8 ∨ a.addr = csp)
+    (wrec : ∃ r ∈ m' :: ms', r.addr = csp ∧ r.cin = true) (wcsp : s.h.top ≤ csp ∧ csp + 16 < g0.base + g0.size)
+    (wm8 : m'.size ≠ 8)
+    (hok' : entsOk s'.h.ents = true)
+    (hmem' : ∀ z, z ∈ s'.h.ents ↔ z = X ∨ z = F ∨ z ∈ m' :: ms' ∨
+      (z ∈ s.h.ents ∧ (z.addr < s.h.top ∨ g0.base + g0.size ≤ z.addr)))
+    (hsegs' : s'.segs = { base := tbase, size := tsize, recAt := 0 } :: { g0 with recAt := csp + 16 } :: rest)
+    (htop' : s'.h.top = tbase) (htops' : s'.h.topsize = tsize - 80)
+    (hdv' : s'.h.dv = s.h.dv) (hdvs' : s'.h.dvsize = s.h.dvsize)
+    (hla' : s'.least_addr ≤ tbase ∧ s'.least_addr ≤ s.least_addr)
+    (hfl' : freeListOk s'.h = true) (hsb' : sbinsOk s'.h = true) (htb' : tbinsOk s'.h = true) :
+    SInv s' ∧ SameUsers s s' := by
+  have w := hi.wfs
+  have hg0 : g0 ∈ s.segs := by rw [hsegs]; exact List.mem_cons_self
+  have hrestm : ∀ g ∈ rest, g ∈ s.segs := fun g hg => by rw [hsegs]; exact List.mem_cons_of_mem _ hg
+  obtain ⟨d1, d2, d3⟩ := sg_segsOk_cons w.segs hsegs
+  have hd0 := d3 g0 List.mem_cons_self
+  have hxm : x ∈ s.h.ents := by rw [hes]; simp
+  have hfm : f ∈ s.h.ents := by rw [hes]; simp
+  obtain ⟨hxc, hxp⟩ := isFree_iff.1 hxf
+  obtain ⟨hx16, hxs16, hxs16'⟩ := shapeOk_free w.shape hxm hxc
+  have hok := w.ents
+  rw [hes] at hok
+  have hok2 : entsOk (pre ++ x :: f :: post) = true := by simpa using hok
+  obtain ⟨o1, o2, o3, o4, o5⟩ := entsOk_mid2 hok2
+  have hrec0 : g0.recAt = 0 := by
+    have ht := w.top
+    unfold topOk at ht
+    simp only [hsegs, Bool.and_eq_true, decide_eq_true_eq] at ht
+    exact ht.1.1.2
+  have hgx : inSeg g0 x = true := by rw [inSeg_iff]; omega
+  have hgf : inSeg g0 f = true := by rw [inSeg_iff]; omega
+  have hfresh := sg_fresh_ents w hfr
+  have hfr0 := hfr g0 hg0
+  -- the window
+  have hw8 : ∀ e ∈ m' :: ms', 8 ≤ e.size := fun e he => shapeOk_size wshape he
+  obtain ⟨wok, wrange⟩ := contig_range wc (fun e he => by have := hw8 e he; omega)
+  have hwin : ∀ e ∈ m' :: ms', s.h.top ≤ e.addr ∧ e.addr + e.size + 8 ≤ g0.base + g0.size := by
+    intro e he; have := wrange e he; omega
+  have hm'a : m'.addr = s.h.top := by
+    simp only [contig, Bool.and_eq_true, decide_eq_true_eq] at wc; exact wc.1
+  -- old headers outside the window
+  have hold_out : ∀ z ∈ s.h.ents, (z.addr < s.h.top ∨ g0.base + g0.size ≤ z.addr) ↔ (z ∈ pre ∨ z ∈ post) := by
+    intro z hz
+    rw [hes] at hz
+    simp only [List.mem_append, List.mem_cons, List.not_mem_nil, or_false] at hz
+    constructor
+    · intro h
+      rcases hz with (hz | hz | hz) | hz
+      · exact Or.inl hz
+      · subst hz; omega
+      · subst hz; omega
+      · exact Or.inr hz
+    · rintro (h | h)
+      · have := o1 z h; omega
+      · have := o5 z h; omega
+  have hmemX : X ∈ s'.h.ents := (hmem' X).2 (Or.inl rfl)
+  have hmemF : F ∈ s'.h.ents := (hmem' F).2 (Or.inr (Or.inl rfl))
+  have hmemW : ∀ e ∈ m' :: ms', e ∈ s'.h.ents := fun e he => (hmem' e).2 (Or.inr (Or.inr (Or.inl he)))
+  have hmemO : ∀ z ∈ s.h.ents, (z.addr < s.h.top ∨ g0.base + g0.size ≤ z.addr) → z ∈ s'.h.ents :=
+    fun z hz hc => (hmem' z).2 (Or.inr (Or.inr (Or.inr ⟨hz, hc⟩)))
+  -- the three kinds of segments
+  have hN_X : inSeg { base := tbase, size := tsize, recAt := 0 } X = true := by rw [inSeg_iff]; simp only; omega
+  have hN_F : inSeg { base := tbase, size := tsize, recAt := 0 } F = true := by rw [inSeg_iff]; simp only; omega
+  have hN_old : ∀ z ∈ s.h.ents, inSeg { base := tbase, size := tsize, recAt := 0 } z = false := by
+    intro z hz
+    have := entsOk_pos w.ents z hz
+    cases h : inSeg { base := tbase, size := tsize, recAt := 0 } z with
+    | false => rfl
+    | true => rw [inSeg_iff] at h; simp only at h; rcases hfresh z hz with h' | h' <;> omega
+  have hN_W : ∀ e ∈ m' :: ms', inSeg { base := tbase, size := tsize, recAt := 0 } e = false := by
+    intro e he
+    have := hwin e he
+    have := hw8 e he
+    cases h : inSeg { base := tbase, size := tsize, recAt := 0 } e with
+    | false => rfl
+    | true => rw [inSeg_iff] at h; simp only at h; omega
+  have hg_XF : ∀ g ∈ s.segs, inSeg g X = false ∧ inSeg g F = false := by
+    intro g hg
+    have := hfr g hg
+    constructor
+    · cases h : inSeg g X with
+      | false => rfl
+      | true => rw [inSeg_iff] at h; omega
+    · cases h : inSeg g F with
+      | false => rfl
+      | true => rw [inSeg_iff] at h; omega
+  have hr_W : ∀ g ∈ rest, ∀ e ∈ m' :: ms', inSeg g e = false := by
+    intro g hg e he
+    have := hwin e he
+    have := hw8 e he
+    have := d1 g hg
+    cases h : inSeg g e with
+    | false => rfl
+    | true => rw [inSeg_iff] at h; omega
+  have h0_W : ∀ e ∈ m' :: ms', inSeg g0 e = true := by
+    intro e he
+    have := hwin e he
+    have := hw8 e he
+    rw [inSeg_iff]; omega
+  have hsegN : segEnts s'.h.ents { base := tbase, size := tsize, recAt := 0 } = [X, F] := by
+    refine sg_segEnts_eq hok' (by simp only [entsOk, Bool.and_eq_true, decide_eq_true_eq]; omega) ?_
+    intro z
+    simp only [List.mem_cons, List.not_mem_nil, or_false]
+    constructor
+    · rintro (h | h)
+      · subst h; exact ⟨hmemX, hN_X⟩
+      · subst h; exact ⟨hmemF, hN_F⟩
+    · rintro ⟨hz, hin⟩
+      rcases (hmem' z).1 hz with h | h | h | h
+      · exact Or.inl h
+      · exact Or.inr h
+      · rw [hN_W z h] at hin; cases hin
+      · rw [hN_old z h.1] at hin; cases hin
+  have hseg0 : segEnts s.h.ents g0 = segEnts pre g0 ++ [x, f] := by
+    have hpost_out : ∀ e ∈ post, inSeg g0 e = false := by
+      intro e he
+      have := o5 e he
+      cases h1 : inSeg g0 e with
+      | false => rfl
+      | true => rw [inSeg_iff] at h1; omega
+    rw [hes, segEnts_window (g := g0) (mid := [x, f]) (by
+      intro e he
+      simp only [List.mem_cons, List.not_mem_nil, or_false] at he
+      rcases he with rfl | rfl <;> assumption), segEnts_none hpost_out, List.append_nil]
+  have hl1ok : entsOk (segEnts pre g0 ++ (m' :: ms')) = true := by
+    have h0 : entsOk (segEnts pre g0 ++ [x, f] ++ []) = true := by
+      rw [List.append_nil, ← hseg0]; exact sg_entsOk_filter w.ents _
+    have := entsOk_window (mid' := m' :: ms') h0 (lo := s.h.top) (hi := g0.base + g0.size)
+      (fun p hp => by have := o1 p (mem_segEnts.1 hp).1; omega) (by simp) wok
+      (fun e he => by have := hwin e he; omega)
+    simpa using this
+  have hseg0' : segEnts s'.h.ents { g0 with recAt := csp + 16 } = segEnts pre g0 ++ (m' :: ms') := by
+    refine sg_segEnts_eq hok' hl1ok ?_
+    intro z
+    have hsame : inSeg { g0 with recAt := csp + 16 } z = inSeg g0 z := rfl
+    rw [hsame]
+    constructor
+    · intro hz
+      rcases List.mem_append.1 hz with h | h
+      · obtain ⟨hp, hin⟩ := mem_segEnts.1 h
+        have hzm : z ∈ s.h.ents := by rw [hes]; simp [hp]
+        exact ⟨hmemO z hzm ((hold_out z hzm).2 (Or.inl hp)), hin⟩
+      · exact ⟨hmemW z h, h0_W z h⟩
+    · rintro ⟨hz, hin⟩
+      rcases (hmem' z).1 hz with h | h | h | h
+      · rw [h, (hg_XF g0 hg0).1] at hin; cases hin
+      · rw [h, (hg_XF g0 hg0).2] at hin; cases hin
+      · exact List.mem_append.2 (Or.inr h)
+      · rcases (hold_out z h.1).1 h.2 with hp | hp
+        · exact List.mem_append.2 (Or.inl (mem_segEnts.2 ⟨hp, hin⟩))
+        · have := o5 z hp; rw [inSeg_iff] at hin; omega
+  have hsegr : ∀ g ∈ rest, segEnts s'.h.ents g = segEnts s.h.ents g := by
+    intro g hg
+    refine sg_segEnts_eq hok' (sg_entsOk_filter w.ents _) ?_
+    intro z
+    rw [mem_segEnts]
+    constructor
+    · rintro ⟨hz, hin⟩
+      refine ⟨hmemO z hz ?_, hin⟩
+      have := d1 g hg
+      rw [inSeg_iff] at hin
+      omega
+    · rintro ⟨hz, hin⟩
+      rcases (hmem' z).1 hz with h | h | h | h
+      · rw [h, (hg_XF g (hrestm g hg)).1] at hin; cases hin
+      · rw [h, (hg_XF g (hrestm g hg)).2] at hin; cases hin
+      · rw [hr_W g hg z h] at hin; cases hin
+      · exact ⟨h.1, hin⟩
+  -- `findEnt` in the new table
+  have hfind_old : ∀ z ∈ s.h.ents, (z.addr < s.h.top ∨ g0.base + g0.size ≤ z.addr) →
+      findEnt s'.h.ents z.addr = findEnt s.h.ents z.addr := by
+    intro z hz hc
+    rw [entsOk_find z (hmemO z hz hc) hok', entsOk_find z hz w.ents]
+  have hrecs_mono : ∀ e : Ent, isRecord s.segs e = true → isRecord s'.segs e = true := by
+    intro e h
+    obtain ⟨g, hg, hga⟩ := sg_isRecord_iff.1 h
+    rw [hsegs] at hg
+    rcases List.mem_cons.1 hg with hg | hg
+    · subst hg; omega
+    · exact sg_isRecord_of_mem (by rw [hsegs']; simp [hg]) hga
+  have hg0r : ({ g0 with recAt := csp + 16 } : Seg) ∈ s'.segs := by rw [hsegs']; simp
+  have hrecs_new : ∀ e : Ent, isRecord s'.segs e = true → e.addr = csp ∨ isRecord s.segs e = true := by
+    intro e h
+    obtain ⟨g, hg, hga⟩ := sg_isRecord_iff.1 h
+    rw [hsegs'] at hg
+    simp only [List.mem_cons] at hg
+    rcases hg with hg | hg | hg
+    · subst hg; simp only at hga; omega
+    · subst hg; simp only at hga; left; omega
+    · exact Or.inr (sg_isRecord_of_mem (hrestm g hg) hga)
+  have hbinfree : ∀ e ∈ s.h.ents, isFree e = true → e.addr ≠ s.h.top →
+      (e.addr < s.h.top ∨ g0.base + g0.size ≤ e.addr) := by
+    intro e he hf hne
+    rw [hes] at he
+    simp only [List.mem_append, List.mem_cons, List.not_mem_nil, or_false] at he
+    rcases he with (h | h | h) | h
+    · have := o1 e h; omega
+    · subst h; omega
+    · subst h; simp [isFree, hfp] at hf
+    · have := o5 e h; omega
+  refine ⟨⟨⟨hok', ?_, ?_, ?_, ?_, hfl', hsb', htb', ?_, ?_, ?_⟩, ?_, ?_, ?_, ?_, ?_⟩, ?_⟩
+  · -- shapeOk
+    unfold shapeOk
+    rw [List.all_eq_true]
+    intro z hz
+    have hsh : ∀ l : List Ent, shapeOk l = true → ∀ e ∈ l, ((decide (e.size = 8) && e.cin && e.pin) ||
+        (decide (e.addr % 16 = 0) && decide (e.size % 16 = 0) && decide (16 ≤ e.size))) = true := by
+      intro l hl e he
+      unfold shapeOk at hl
+      exact List.all_eq_true.1 hl e he
+    rcases (hmem' z).1 hz with h | h | h | h
+    · subst h; simp only [Bool.or_eq_true, Bool.and_eq_true, decide_eq_true_eq]; right; omega
+    · subst h; simp only [Bool.or_eq_true, Bool.and_eq_true, decide_eq_true_eq]; right; omega
+    · exact hsh _ wshape z h
+    · exact hsh _ w.shape z h.1
+  · -- allInSegs
+    simp only [List.all_eq_true, List.any_eq_true]
+    intro z hz
+    rw [hsegs']
+    rcases (hmem' z).1 hz with h | h | h | h
+    · exact ⟨_, List.mem_cons_self, h ▸ hN_X⟩
+    · exact ⟨_, List.mem_cons_self, h ▸ hN_F⟩
+    · exact ⟨_, List.mem_cons_of_mem _ List.mem_cons_self, h0_W z h⟩
+    · obtain ⟨g, hg, hge⟩ := w.struct.seg_of h.1
+      rw [hsegs] at hg
+      rcases List.mem_cons.1 hg with hg | hg
+      · subst hg; exact ⟨_, List.mem_cons_of_mem _ List.mem_cons_self, hge⟩
+      · exact ⟨g, List.mem_cons_of_mem _ (List.mem_cons_of_mem _ hg), hge⟩
+  · -- tiles
+    rw [hsegs']
+    simp only [List.all_cons, Bool.and_eq_true, List.all_eq_true]
+    refine ⟨?_, ?_, ?_⟩
+    · rw [hsegN]
+      simp only [tiles, isTrailerEnd, Bool.and_eq_true, Bool.or_eq_true, decide_eq_true_eq]
+      rw [F3, F4]
+      refine ⟨⟨by omega, by omega⟩, ⟨by omega, Or.inl (by omega)⟩, Or.inl (by simp)⟩
+    · rw [hseg0']
+      have ht := w.struct.tiles_of hg0
+      rw [hseg0] at ht
+      have hnew : tiles (m' :: ms' ++ []) s.h.top (g0.base + g0.size) = true := by
+        rw [tiles_split]
+        refine ⟨wc, fun y hy => hw8 y (List.mem_cons_of_mem _ hy), ?_⟩
+        simp only [tailOk, isTrailerEnd, Bool.and_eq_true, Bool.or_eq_true, decide_eq_true_eq]
+        exact ⟨Or.inr wend, Or.inr wlast⟩
+      rw [List.append_nil] at hnew
+      refine sg_tiles_prefix_end (segEnts pre g0) (m := x) (r := [f]) (m' := m') (r' := ms')
+        (fun _ => hw8 m' List.mem_cons_self) ?_ _ ht
+      intro a h
+      have : x.addr = a := tiles_head_addr h
+      rw [← this, hxa]; exact hnew
+    · intro g hg
+      rw [hsegr g hg]
+      exact w.struct.tiles_of (hrestm g hg)
+  · -- tagsOk
+    rw [hsegs', htop']
+    simp only [List.all_cons, Bool.and_eq_true, List.all_eq_true]
+    have hcongr : ∀ g ∈ s.segs, ∀ e ∈ segEnts s.h.ents g, e.addr ≠ s.h.top → (e.addr = s.h.top ↔ e.addr = tbase) := by
+      intro g hg e he hne
+      have hem := (mem_segEnts.1 he).1
+      have := entsOk_pos w.ents e hem
+      constructor
+      · intro h; exact absurd h hne
+      · intro h; rcases hfresh e hem with h' | h' <;> omega
+    refine ⟨?_, ?_, ?_⟩
+    · rw [hsegN]
+      simp [tagsOk, isFree, X1, X3, X4, F3, F4]
+    · rw [hseg0']
+      have ht := w.struct.tags_of hg0
+      rw [hseg0] at ht
+      have ht' : tagsOk s.h.top true (segEnts pre g0 ++ x :: [f]) = true := by simpa using ht
+      rw [tagsOk_split] at ht' ⊢
+      refine ⟨tagsOk_snoc_congr ?_ whead ht'.1, wtags⟩
+      intro e he
+      have hp := (mem_segEnts.1 he).1
+      refine hcongr g0 hg0 e (mem_segEnts.2 ⟨by rw [hes]; simp [hp], (mem_segEnts.1 he).2⟩) ?_
+      have := o1 e hp; omega
+    · intro g hg
+      rw [hsegr g hg]
+      refine tagsOk_top_congr ?_ (w.struct.tags_of (hrestm g hg))
+      intro e he
+      refine hcongr g (hrestm g hg) e he ?_
+      intro h
+      have hin := (mem_segEnts.1 he).2
+      have := d1 g hg
+      rw [inSeg_iff] at hin
+      omega
+  · -- dvOk
+    have hd := w.dv
+    unfold dvOk at hd ⊢
+    rw [hdv', hdvs']
+    by_cases h0 : s.h.dv = 0
+    · rw [if_pos h0] at hd ⊢; exact hd
+    · rw [if_neg h0] at hd ⊢
+      split at hd
+      · rename_i e he
+        obtain ⟨hem, hea⟩ := findEnt_some he
+        simp only [Bool.and_eq_true, decide_eq_true_eq] at hd
+        have htn : s.h.top ≠ 0 := by
+          intro h; have := hd0.2.2.1; omega
+        have := hfind_old e hem (hbinfree e hem hd.1.1 (by rw [hea]; exact w.dv_ne_top htn))
+        rw [hea] at this
+        rw [this, he]
+        simp only [Bool.and_eq_true, decide_eq_true_eq]
+        exact hd
+      · cases hd
+  · -- topOk
+    unfold topOk
+    rw [hsegs', htop', htops']
+    have e1 := entsOk_find X hmemX hok'
+    have e2 := entsOk_find F hmemF hok'
+    rw [X1] at e1
+    rw [F1] at e2
+    simp only [e1, e2, isFree, X2, X3, X4, F2, F3, F4, top_foot_size_eq, Bool.and_eq_true, decide_eq_true_eq]
+    sg_omega
+  · -- segsOk
+    refine sg_segsOk_of hsegs' ?_ ?_ ?_
+    · intro g hg
+      rcases List.mem_cons.1 hg with hg | hg
+      · subst hg; simp only; omega
+      · have := hfr g (hrestm g hg); simp only; omega
+    · simp only [segsDisjoint, Bool.and_eq_true, List.all_eq_true, Bool.or_eq_true, decide_eq_true_eq]
+      exact ⟨d1, d2⟩
+    · intro g hg
+      simp only [List.mem_cons] at hg
+      rcases hg with hg | hg | hg
+      · subst hg; simp only; omega
+      · subst hg; simp only; omega
+      · have := d3 g (List.mem_cons_of_mem _ hg); omega
+  · -- RecsOk
+    intro g hg hne
+    rw [hsegs'] at hg
+    simp only [List.mem_cons] at hg
+    rcases hg with hg | hg | hg
+    · subst hg; exact absurd rfl hne
+    · subst hg
+      obtain ⟨r, hr, hra, hrc⟩ := wrec
+      refine ⟨by simp only; omega, r, ?_, hrc⟩
+      simp only [show csp + 16 - 16 = csp by omega]
+      rw [← hra]; exact entsOk_find r (hmemW r hr) hok'
+    · obtain ⟨h16, e, he, hc⟩ := hi.recs g (hrestm g hg) hne
+      obtain ⟨hm, ha⟩ := findEnt_some he
+      have hri := hi.recin g (hrestm g hg) hne
+      have := d1 g hg
+      refine ⟨h16, e, ?_, hc⟩
+      rw [← ha, hfind_old e hm (by omega)]
+      exact entsOk_find e hm w.ents
+  · -- FenceOk
+    rw [sg_fenceOk_iff_tab hok']
+    have hold := (sg_fenceOk_iff_tab w.ents).1 hi.fence
+    have hcsp_rec : ∀ e : Ent, e.addr = csp → isRecord s'.segs e = true := by
+      intro e he
+      exact sg_isRecord_of_mem hg0r (by simp only; omega)
+    intro a ha b hb h8 hadj
+    rcases (hmem' b).1 hb with hbX | hbF | hbW | hbO
+    · rw [hbX, X2] at h8; omega
+    · rw [hbF, F2] at h8; omega
+    · -- `b` is one of the new fenceposts
+      have hbw := hwin b hbW
+      have hbne : b ≠ m' := fun h => wm8 (h ▸ h8)
+      have hbgt : s.h.top < b.addr := by
+        rcases List.mem_cons.1 hbW with h | h
+        · exact absurd h hbne
+        · have := entsOk_head_le wok b h
+          have := hw8 m' List.mem_cons_self
+          omega
+      rcases (hmem' a).1 ha with haX | haF | haW | haO
+      · rw [haX, X1, X2] at hadj; omega
+      · rw [haF, F1, F2] at hadj; omega
+      · rcases wfence a haW b hbW h8 hadj with h | h
+        · exact Or.inl h
+        · exact Or.inr (hcsp_rec a h)
+      · exfalso
+        have hapos := entsOk_pos w.ents a haO.1
+        rcases haO.2 with h | h
+        · have : a.addr + a.size ≤ x.addr := by
+            have := entsOk_sep w.ents a haO.1 x hxm (by omega); exact this
+          omega
+        · omega
+    · -- `b` is an old fencepost
+      rcases (hmem' a).1 ha with haX | haF | haW | haO
+      · rw [haX, X1, X2] at hadj
+        have := hfresh b hbO.1
+        have := entsOk_pos w.ents b hbO.1
+        omega
+      · exfalso
+        rw [haF, F1, F2] at hadj
+        obtain ⟨g, hg, hge⟩ := w.struct.seg_of hbO.1
+        have := hfr g hg
+        rw [inSeg_iff] at hge
+        exact hi.head g hg b hbO.1 (by omega) h8
+      · have := hwin a haW; have := hw8 a haW; omega
+      · rcases hold a haO.1 b hbO.1 h8 hadj with h | h
+        · exact Or.inl h
+        · exact Or.inr (hrecs_mono a h)
+  · -- TailOk
+    intro g hg hne e he hge
+    rw [hsegs'] at hg
+    simp only [List.mem_cons] at hg
+    rcases hg with hg | hg | hg
+    · subst hg; exact absurd rfl hne
+    · subst hg
+      have hge0 : inSeg g0 e = true := hge
+      simp only
+      rcases (hmem' e).1 he with h | h | h | h
+      · rw [h, (hg_XF g0 hg0).1] at hge0; cases hge0
+      · rw [h, (hg_XF g0 hg0).2] at hge0; cases hge0
+      · rcases wclass e h with h1 | h1 | h1
+        · exact Or.inl h1
+        · exact Or.inr (Or.inl (sg_isRecord_of_mem hg0r (by simp only; omega)))
+        · exact Or.inr (Or.inr h1.2)
+      · right; right
+        rw [inSeg_iff] at hge0
+        have : e.addr + e.size ≤ x.addr := entsOk_sep w.ents e h.1 x hxm (by omega)
+        omega
+    · rcases (hmem' e).1 he with h | h | h | h
+      · rw [h, (hg_XF g (hrestm g hg)).1] at hge; cases hge
+      · rw [h, (hg_XF g (hrestm g hg)).2] at hge; cases hge
+      · rw [hr_W g hg e h] at hge; cases hge
+      · rcases hi.tail g (hrestm g hg) hne e h.1 hge with h1 | h1 | h1
+        · exact Or.inl h1
+        · exact Or.inr (Or.inl (hrecs_mono e h1))
+        · exact Or.inr (Or.inr h1)
+  · -- HeadOk
+    intro g hg e he hb
+    rw [hsegs'] at hg
+    simp only [List.mem_cons] at hg
+    have hgb' : ∃ g1, (g1 ∈ s.segs ∨ g1 = { base := tbase, size := tsize, recAt := 0 }) ∧ g1.base = g.base := by
+      rcases hg with hg | hg | hg
+      · exact ⟨g, Or.inr hg, rfl⟩
+      · exact ⟨g0, Or.inl hg0, by rw [hg]⟩
+      · exact ⟨g, Or.inl (hrestm g hg), rfl⟩
+    obtain ⟨g1, hg1, hb1⟩ := hgb'
+    rcases (hmem' e).1 he with h | h | h | h
+    · rw [h, X2]; omega
+    · rw [h, F2]; omega
+    · rcases List.mem_cons.1 h with h | h
+      · rw [h]; exact wm8
+      · -- a later header of the window does not sit at a segment base
+        exfalso
+        have := entsOk_head_le wok e h
+        have := hw8 m' List.mem_cons_self
+        have := hwin e (List.mem_cons_of_mem _ h)
+        rcases hg1 with hg1 | hg1
+        · have := hfr g1 hg1
+          rw [hsegs] at hg1
+          rcases List.mem_cons.1 hg1 with hg1 | hg1
+          · subst hg1; omega
+          · have := d1 g1 hg1; have := d3 g1 (List.mem_cons_of_mem _ hg1); omega
+        · subst hg1; simp only at hb1; omega
+    · rcases hg1 with hg1 | hg1
+      · exact hi.head g1 hg1 e h.1 (by omega)
+      · exfalso
+        subst hg1; simp only at hb1
+        have := hfresh e h.1
+        have := entsOk_pos w.ents e h.1
+        omega
+  · -- RecIn
+    intro g hg hne
+    rw [hsegs'] at hg
+    simp only [List.mem_cons] at hg
+    rcases hg with hg | hg | hg
+    · subst hg; exact absurd rfl hne
+    · subst hg; simp only; omega
+    · exact hi.recin g (hrestm g hg) hne
+  · -- SameUsers
+    intro a z
+    rw [sg_user_iff_mem hok', sg_user_iff_mem w.ents]
+    constructor
+    · rintro ⟨e, he, u1, u2, u3, u4, u5⟩
+      rcases (hmem' e).1 he with h | h | h | h
+      · rw [h, X3] at u2; cases u2
+      · rw [h, F3] at u2; cases u2
+      · exfalso
+        rcases wclass e h with h1 | h1 | h1
+        · omega
+        · have := sg_isRecord_of_mem (e := e) hg0r (by simp only; omega)
+          rw [u5] at this; cases this
+        · rw [h1.1] at u2; cases u2
+      · refine ⟨e, h.1, u1, u2, u3, u4, ?_⟩
+        cases hr : isRecord s.segs e with
+        | false => rfl
+        | true => rw [hrecs_mono e hr] at u5; cases u5
+    · rintro ⟨e, he, u1, u2, u3, u4, u5⟩
+      have hout : e.addr < s.h.top ∨ g0.base + g0.size ≤ e.addr := by
+        rw [hes] at he
+        simp only [List.mem_append, List.mem_cons, List.not_mem_nil, or_false] at he
+        rcases he with (h | h | h) | h
+        · have := o1 e h; omega
+        · subst h; rw [hxc] at u2; cases u2
+        · subst h; rw [hfc] at u2; cases u2
+        · have := o5 e h; omega
+      refine ⟨e, hmemO e he hout, u1, u2, u3, u4, ?_⟩
+      cases hr : isRecord s'.segs e with
+      | false => rfl
+      | true =>
+        exfalso
+        rcases hrecs_new e hr with h | h
+        · omega
+        · rw [u5] at h; cases h
+
 end TinyVerif.Dl
